@@ -37,6 +37,12 @@ CHECKS = {
  "C11": dict(technique="Coq: the model decides which assignments can be honoured (element exists, same shape, every string within the capacity fixed at creation); certified history judgement; correspondence: every misuse class on objects with live neighbours must raise and leave all bytes unchanged",
              text="Theorems (closed): too-large strings, missing elements and other shapes are refused by the model; in an accepted history every refused operation left the object the image of the unchanged value; sizes never change. Tie: generated misuse (string/nested item too large, update of other length or shape, index outside the shape incl. negative, buffer of another context, offset without buffer) interleaved with fitting operations: must raise, whole buffer unchanged, later reads unaffected.",
              ref="DESIGN.md §7 C11"),
+ "C08": dict(technique="Coq: abstract store with object identity (RefOps) with alias / freshness / null theorems, byte-level reference decoding in the strict decoder; correspondence: reference histories over three buffers compared step by step with the store, final buffers decoded in Coq",
+             text="Theorems (closed): binding to an existing object makes the slot denote that object and later writes to it are what the reference reads; binding plain data creates a new identity and leaves every other object untouched; null reads as nothing (byte level: reserved offset, member index -1 required for unions); growth keeps every byte at its offset, and references are slot-relative, so decoding is unchanged. Tie: generated type worlds (Ref, UnionRef, arrays of them, nested, references to reference-bearing structs) and histories {construct, bind existing/value/foreign/null through handle or view, write through reference or original, growth}: after every step deep reads through handle and view and the raw content of every reference slot (target address, member index, inside a logged allocation, stable across growth, equal for aliases) are compared with the store; final buffers are decoded by the strict decoder inside Coq.",
+             ref="DESIGN.md §7 C08"),
+ "C09": dict(technique="Coq: deep value depends only on reachable objects, a write touches one object (RefOps), byte-level frame lemma; correspondence: copy construction into same buffer / other buffer / other context followed by writes on either side, compared with the store model, final buffers decoded in Coq",
+             text="Theorems (closed): the deep value of an object depends only on the objects it reaches; a write changes exactly one object; hence a copy whose referents were duplicated is unaffected by writes to the original and vice versa; a written image leaves all bytes outside its extent alone. Tie: histories with copy construction (shared referents in the same buffer, duplicates otherwise) and subsequent writes/rebinds on either side, over reference-bearing types at any depth incl. arrays of reference-bearing structs; values, aliasing of referents, extent disjointness checked after every step; final buffers decoded in Coq.",
+             ref="DESIGN.md §7 C09"),
 }
 NOT_YET = {}
 def main():
